@@ -18,4 +18,7 @@ for cell in ("triangle", "quadrilateral"):
         f("+") * g("-") * x[0] * dS + jump(f) * avg(g) * dS,
         inner(h("-"), n("+")) * f("+") * dS,
         inner(jump(grad(f)), n("+")) * avg(v) * dS + g("-") * v("+") * dS,
+        # the '-' side's own normal and facet-indexed geometry (on non-affine cells n('-') is not rewritten to -n('+'))
+        f("-") * inner(n("-"), h("+")) * dS,
+        inner(jump(v, n), h("-")) * dS,
     ]
